@@ -25,6 +25,9 @@ Inductive c19_case :=
 (* one OpenWallet: first min(24, len) bytes of the file, length of the file, header the file was written with,
    ciphertext bytes unchanged?, password the file was written with?, outcome class *)
 | CFile (hdr : packed) (file_len : N) (orig_hdr : packed) (ct_same pw_same : bool) (go_outcome : N)
+(* a file exactly as the wallet API wrote it (CreateWallet / CreateWalletFromMnemonic, default or fast parameters),
+   opened with its own password: the 24 header bytes, the length, the outcome class *)
+| CApi (hdr : packed) (file_len : N) (go_outcome : N)
 (* one builder call: Prevalidate height, wallet state, request, the built transaction (None = builder error),
    builder panicked?, outcome of the real Prevalidate (0 ok, 1 error, 2 panic, 3 not run) *)
 | CTx (height : N) (st : wstate) (rq : request) (go_tx : option gotx) (go_build_panic : bool) (go_prevalidate : N).
@@ -80,6 +83,7 @@ Definition c19_corr (cfg : config) (c : c19_case) : bool :=
   match c with
   | CRestore e a b c d f => eqb (toy_same e) (a && b && c && d && f)
   | CFile hdr fl oh cs ps o => file_model hdr fl oh cs ps =? o
+  | CApi hdr fl o => file_model hdr fl hdr true true =? o
   | CTx h st rq g bp pv =>
       negb bp &&
       match build cfg st rq, g with
@@ -105,7 +109,8 @@ Definition must_open (orig_hdr : packed) : bool :=
 (* the property, decided on what the implementation returned; 0 = holds, else failed conjunct:
    11 restored key differs, 12 address differs, 13 public key differs, 14 mnemonic differs, 15 reopened files differ;
    21 a file opened to a different key, 22 OpenWallet panicked, 23 the process died (out of memory), 24 no answer,
-   25 a file opened although password, header or ciphertext had changed, 26 the intact file did not open with its password;
+   25 a file opened although password, header or ciphertext had changed, 26 the intact file did not open with its password,
+   27 a file written by the wallet API did not reopen with its password;
    31 the wallet refused an affordable request, 32 the node's Prevalidate refused the wallet's transaction,
    33 a builder or Prevalidate panicked *)
 Definition c19_prop (cfg : config) (c : c19_case) : N :=
@@ -116,6 +121,7 @@ Definition c19_prop (cfg : config) (c : c19_case) : N :=
       first_fail [(21, negb (o =? O_OK_DIFF)); (22, negb (o =? O_PANIC)); (23, negb (o =? O_CRASH)); (24, negb (o =? O_HANG));
                   (25, if o =? O_OK_SAME then intact else true);
                   (26, if intact && must_open oh then o =? O_OK_SAME else true)]
+  | CApi hdr fl o => first_fail [(27, o =? O_OK_SAME)]   (* what the API wrote opens with its password to the same key *)
   | CTx h st rq g bp pv =>
       if bp || (pv =? 2) then 33
       else if in_domain cfg c19_team_key st rq && regime_ok cfg rq h then
